@@ -73,10 +73,18 @@ def gen_world(seed, classes=ALL_CLASSES, want_constraints=0.3, node_p=0.25, tag=
             g = gen.dag_bowtie(rng, float_w=float_w)
         elif r_ < 0.3 + 0.5 * want_constraints:
             g = gen.dag_braid(rng, max_routes=3, wmax=6, float_w=float_w)     # long, crossing routes: meaningful constraints
+            for _ in range(20):
+                if len(g["edges"]) <= 9 and len(g["routes"]) <= 4:
+                    break
+                g = gen.dag_braid(rng, max_routes=3, wmax=6, float_w=float_w)
+            else:
+                g = gen.dag_layered(rng, max_nodes=6, max_edges=8, float_w=float_w)
         else:
             g = gen.dag_layered(rng, max_nodes=6, max_edges=8, float_w=float_w)
     else:
-        g = gen.digraph_cyclic(rng, max_nodes=5, max_edges=6, max_routes=2, wmax=3, float_w=float_w)
+        zp = 0.2 if flow_decomp else 0.6      # error / cover models: unused (zero-weight) cycles are ordinary input
+        g = gen.digraph_cyclic(rng, max_nodes=5, max_edges=6, max_routes=2, wmax=3, float_w=float_w,
+                               flower_p=0.3 if flow_decomp else 0.45, zero_petal_p=zp)
         while len(g["routes"]) > 3 or len(g["edges"]) > 7:
             g = gen.digraph_cyclic(rng, max_nodes=5, max_edges=6, max_routes=2, wmax=3, float_w=float_w, flower_p=0.0)
     if g.get("routes") is None:
@@ -118,6 +126,8 @@ def gen_world(seed, classes=ALL_CLASSES, want_constraints=0.3, node_p=0.25, tag=
     nroutes = len(g["routes"]) if g.get("routes") else 3
     if base.startswith("k") or inner:
         k = max(1, nroutes + rng.choice([0, 0, 0, 1, 1, -1]))
+        if dag:
+            k = min(k, 5)
         if not dag:
             # cyclic MILPs grow quickly with k; keep every solve far below the real-time cap
             k = min(k, 2 if base in ("kMinPathErrorCycles", "kLeastAbsErrorsCycles") else 3)
@@ -144,6 +154,7 @@ def gen_world(seed, classes=ALL_CLASSES, want_constraints=0.3, node_p=0.25, tag=
             args[cons_key] = cons
             cov = rng.choice([1, 1, 0.75, 0.5])
             crossed = False
+            crossed_front = False
             if not node_mode and rng.random() < 0.6:
                 # "crossing" constraints: append an edge that leaves the generating route, so that no
                 # route contains the whole constraint and only a fraction of it can be covered
@@ -167,9 +178,22 @@ def gen_world(seed, classes=ALL_CLASSES, want_constraints=0.3, node_p=0.25, tag=
                     # an edge out of the last node that no generating route takes right after the constraint's last edge
                     alt2 = [y for y in alt if y not in cont]
                     alt = alt2 or (alt if rng.random() < 0.3 else [])
+                    # or cross at the start: an edge into the first node that no route takes right before the first edge
+                    first = c[0][0]
+                    prevs = set()
+                    for r_ in g["routes"]:
+                        er = list(zip(r_[:-1], r_[1:]))
+                        for a_, b_ in zip(er[:-1], er[1:]):
+                            if list(b_) == c[0]:
+                                prevs.add(a_[0])
+                    altp = [u_ for u_, v_, _ in graph["edges"] if v_ == first and u_ not in prevs and [u_, first] not in c]
                     if alt:
                         newc.append(c + [[last, rng.choice(alt)]])
                         crossed = True
+                    elif altp and dag:
+                        newc.append([[rng.choice(altp), first]] + c)
+                        crossed = True
+                        crossed_front = True
                     else:
                         newc.append(c)
                 if crossed:
@@ -196,11 +220,21 @@ def gen_world(seed, classes=ALL_CLASSES, want_constraints=0.3, node_p=0.25, tag=
                 graph = dict(graph)
                 lens = {}
                 for c in cons:
-                    for e in c[:-1]:
-                        lens[tuple(e)] = rng.randint(3, 9)
-                    lens.setdefault(tuple(c[-1]), 1)
+                    for e in c:
+                        lens.setdefault(tuple(e), rng.randint(3, 9))
+                    # the crossing edge (last, or first when crossed at the start) is the short one
+                    onr = set()
+                    for r_ in g["routes"]:
+                        onr.update(zip(r_[:-1], r_[1:]))
+                    for e in (c[-1], c[0]):
+                        if not any(all(tuple(x) in list(zip(r_[:-1], r_[1:])) for x in c if x != e) and tuple(e) in list(zip(r_[:-1], r_[1:])) for r_ in g["routes"]):
+                            lens[tuple(e)] = 1
+                            break
                 graph["edge_lengths"] = [[u, v, lens.get((u, v), rng.randint(1, 3))] for u, v, _ in graph["edges"]]
-                worst = min(sum(lens[tuple(e)] for e in c[:-1]) / float(sum(lens[tuple(e)] for e in c)) for c in cons)
+                def best_frac(c):
+                    tot = float(sum(lens[tuple(e)] for e in c))
+                    return max(sum(lens[tuple(e)] for e in c if tuple(e) in set(zip(r_[:-1], r_[1:]))) / tot for r_ in g["routes"])
+                worst = min(best_frac(c) for c in cons)
                 args["subpath_constraints_coverage_length"] = max(0.05, int(worst * 100 - 1) / 100.0)
                 args["length_attr"] = "len"
     # ignored elements
